@@ -57,11 +57,14 @@ def all_units():
 CMP = ["eq", "ne", "lt", "le", "gt", "ge"]
 ITEMS = [n + s for n in CMP for s in (":q_op_ZERO", ":ZERO_op_q")] + [
     "q+ZERO", "q-ZERO", "ZERO+q", "ZERO-q", "q+ZERO==q", "q-ZERO==q", "q+=ZERO", "q-=ZERO"]
-FORMS = ["Q q = ZERO", "Q q{ZERO}", "Q q(ZERO)", "Q q = Zero{}", "constexpr Q q = ZERO", "q = ZERO (assignment)",
-         "pass ZERO to f(Q)", "Q q = rep_cast<R>(ZERO)", "Q(ZERO)", "static_cast<Q>(ZERO)", "Q arr[2] = {ZERO, ZERO}",
-         "struct { Q m = ZERO; }", "rep_cast<int32_t>(Q(ZERO))", "rep_cast<double>(Q(ZERO))",
-         "Quantity<U,R2> = rep_cast<R2>(ZERO) for all 11 R2", "Q(ZERO).in(maker)", "return ZERO from function returning Q",
-         "Q q = mk(7); q = rep_cast<R>(ZERO)"]
+FORMS = [("copy-init", "Q q = ZERO"), ("list-init", "Q q{ZERO}"), ("direct-init", "Q q(ZERO)"), ("copy-init-Zero", "Q q = Zero{}"),
+         ("constexpr", "constexpr Q q = ZERO"), ("assign", "q = ZERO"), ("argument", "pass ZERO to f(Q)"),
+         ("rep_cast-ZERO", "Q q = rep_cast<R>(ZERO)"), ("functional-cast", "Q(ZERO)"), ("static_cast", "static_cast<Q>(ZERO)"),
+         ("array", "Q arr[2] = {ZERO, ZERO}"), ("member-init", "struct { Q m = ZERO; }"),
+         ("rep_cast-int32", "rep_cast<int32_t>(Q(ZERO))"), ("rep_cast-double", "rep_cast<double>(Q(ZERO))"),
+         ("rep_cast-ZERO-all-reps", "Quantity<U,R2> = rep_cast<R2>(ZERO) for all 11 R2"), ("in-maker", "Q(ZERO).in(maker)"),
+         ("return", "return ZERO from a function returning Q"), ("assign-rep_cast", "q = rep_cast<R>(ZERO)")]
+FORM_IDS = [f[0] for f in FORMS]
 
 HARNESS = C13_HARNESS + r'''
 namespace c19 {
